@@ -129,6 +129,7 @@ struct KeyMeta {
     std::vector<size_t> seams;       ///< start positions of chunks 1..c-1 (build is chunked iff chunks > 1)
     std::vector<size_t> block_starts;
     bool has_dup = false;
+    int fp_exp2 = 0;                 ///< floating keys: the lattice scale 2^fp_exp2 of this case
     bool seam_surgery = false;
     bool top_reached = false;        ///< contains the largest admissible key (max-1)
     bool starts_lowest = false;
@@ -159,6 +160,8 @@ struct GenOpts {
     bool unsigned_only = false;
     bool smooth_curves = false;    ///< segmentation engines: 1 array in 12 (size hint >= 60) is a smooth convex / concave curve x_i = A*i + C*i^p tuned to stay
                                    ///< within a fraction of epsilon of a line: the builder's convex hulls then keep (almost) every point
+    bool hull_stress = false;      ///< segmentation engines: 1 array in 40 (size hint >= 60): 66000..136000 keys in strictly convex / concave position inside ONE
+                                   ///< epsilon band and (mostly) one chunk, so that a hull of the builder reaches the 2^16 entries its vector was created with
     bool pow2_sizes = false;       ///< 1 array in 30 has exactly 2^k - 1, 2^k or 2^k + 1 keys, k = 10..19 (block-wise copy / chunk arithmetic edges)
     bool mixed_runs = false;       ///< Compressed: about 1 case in 250: >= 10^5 three-key segments followed by thousands of long linear runs (one long
                                    ///< segment each): the intercepts' bitvector gets sparse stretches after a dense prefix (select long superblocks)
@@ -265,12 +268,91 @@ std::vector<K> gen_keys(TapeReader &t, const GenOpts &o, KeyMeta &meta) {
         return keys;
     }
 
+    // ---- "hull_stress" class: every point is a vertex of one of the builder's two hulls, and one segment holds more than 2^16 of them
+    if (o.hull_stress && !o.xkeys && sizeof(K) == 8 && !std::is_floating_point_v<K> && o.size_hint >= 60 && t.chance(1, 40)) {
+        const size_t n = 66000 + t.below(70000);
+        const unsigned fam = (unsigned) t.below(4); // gap_j = A +- floor(B * f(j)), f = sqrt(j) | j | log2(1+j) | j^2/n
+        const bool shrinking = t.chance(1, 2);
+        const double delta = (2 + t.below(14)) / 10.0; // deviation of the whole curve from its best line, in units of epsilon
+        meta.threads = o.allow_threads ? (t.chance(3, 4) ? 1 : 1 + (int) t.below(3)) : 1;
+        const long double B = fam == 0 ? 3.0L * std::sqrt((long double) n) * (1 + t.below(3)) : fam == 1 ? (long double) (1 + t.below(3))
+                              : fam == 2 ? 1.5L * (long double) n * (1 + t.below(3)) : (long double) (2 + t.below(3));
+        std::vector<i128> h(n);
+        long double X = 0, Xn = 0;
+        for (size_t j = 0; j < n; ++j) {
+            long double f = fam == 0 ? std::sqrt((long double) j) : fam == 1 ? (long double) j : fam == 2 ? std::log2(1.0L + (long double) j) : (long double) j * j / (long double) n;
+            h[j] = (i128) std::floor(B * f);
+            Xn += (long double) h[j];
+        }
+        long double dmax = 0;
+        for (size_t j = 0; j < n; ++j) {
+            long double chord = Xn * (long double) j / (long double) n;
+            dmax = std::max(dmax, std::fabs(X - chord));
+            X += (long double) h[j];
+        }
+        const i128 A = (i128) (dmax / (2.0L * delta * (long double) std::max<size_t>(eps, 1))) + 1;
+        const i128 hmax = *std::max_element(h.begin(), h.end());
+        std::vector<K> keys;
+        keys.reserve(n);
+        i128 v = lat.lo + (i128) t.below(1000);
+        for (size_t j = 0; j < n; ++j) {
+            if (v > lat.hi) break;
+            keys.push_back(lat.to_key(v));
+            v += A + (shrinking ? hmax - h[j] : h[j]);
+        }
+        meta.n = keys.size();
+        meta.size_class = "hull_stress";
+        meta.chunks = chunk_count(meta.n, meta.threads);
+        for (size_t i = 1; i < meta.chunks; ++i) meta.seams.push_back(i * (meta.n / meta.chunks));
+        meta.query_seed = t.bits(64);
+        static const char *fn[] = {"sqrt(j)", "j", "log2(1+j)", "j^2/n"};
+        rec << "class=hull_stress n=" << meta.n << " gaps " << i128_str(A) << (shrinking ? " + max - " : " + ") << "floor(" << (double) B << "*" << fn[fam] << ") (deviation "
+            << delta << "*eps) threads=" << meta.threads;
+        meta.recipe = rec.str();
+        for (size_t i = 1; i < keys.size(); ++i)
+            if (keys[i] <= keys[i - 1]) throw HarnessBug("hull_stress class: not strictly increasing");
+        keys.shrink_to_fit();
+        return keys;
+    }
+
     // ---- "smooth" class: hull-heavy inputs for the segmentation builder
     if (o.smooth_curves && !o.xkeys && sizeof(K) == 8 && !std::is_floating_point_v<K> && o.size_hint >= 60 && t.chance(1, 12)) {
         size_t n = o.size_hint >= 85 ? 60000 + t.below(140000) : 300 + t.below(20000);
         n = std::min(n, o.max_n);
         static const double ps[] = {1.5, 2.0, 0.5, 3.0, 1.2};
-        double pw = ps[t.below(5)];
+        const size_t psel = t.below(7);
+        if (psel >= 5) {
+            // integer quadratic: gaps g0 +- c*i, i.e. second differences of exactly c >= 1, so EVERY point is a vertex of one of the two
+            // convex hulls the builder keeps (their vectors start with room for 2^16 entries); the base gap is sized so that the whole
+            // curve deviates from a line by delta*eps ranks (one segment for small delta, a few for larger ones)
+            const i128 c = 1 + (i128) t.below(3);
+            const bool shrinking = psel == 6;
+            const double delta2 = (1 + t.below(30)) / 10.0;
+            meta.threads = o.allow_threads ? (t.chance(1, 2) ? 1 + (int) t.below(2) : 1 + (int) t.below(20)) : 1;
+            i128 gavg = (i128) ((double) c * (double) n * (double) n / (8.0 * delta2 * (double) std::max<size_t>(eps, 1))) + 1;
+            i128 g0 = shrinking ? gavg + c * (i128) n : std::max<i128>(gavg - c * (i128) n / 2, 1);
+            std::vector<K> keys;
+            keys.reserve(n);
+            i128 v = lat.lo + (i128) t.below(1000), g = g0;
+            for (size_t i = 0; i < n; ++i) {
+                if (v > lat.hi || g < 1) break;
+                keys.push_back(lat.to_key(v));
+                v += g;
+                g += shrinking ? -c : c;
+            }
+            if (keys.empty()) keys.push_back(lat.to_key(lat.lo));
+            meta.n = keys.size();
+            meta.size_class = "smooth";
+            meta.chunks = chunk_count(meta.n, meta.threads);
+            for (size_t i = 1; i < meta.chunks; ++i) meta.seams.push_back(i * (meta.n / meta.chunks));
+            meta.query_seed = t.bits(64);
+            rec << "class=smooth(integer quadratic) n=" << meta.n << " gaps " << i128_str(g0) << (shrinking ? " - " : " + ") << i128_str(c) << "*i (deviation "
+                << delta2 << "*eps) threads=" << meta.threads;
+            meta.recipe = rec.str();
+            keys.shrink_to_fit();
+            return keys;
+        }
+        double pw = ps[psel];
         double A = std::ldexp(1.0, 4 + (int) t.below(36));              // base gap 2^4 .. 2^39
         double delta = (1 + t.below(40)) / 10.0;                         // total rank deviation = delta * eps (0.1 .. 4 eps: 1..several segments)
         double Cc = delta * (double) std::max<size_t>(eps, 1) * A / std::pow((double) n, pw);
@@ -498,6 +580,7 @@ std::vector<K> gen_keys(TapeReader &t, const GenOpts &o, KeyMeta &meta) {
     }
     rec << "class=" << meta.size_class << " target_n=" << target << " threads=" << meta.threads << " procs=" << meta.procs;
     if constexpr (std::is_floating_point_v<K>) rec << " scale=2^" << lat.exp2;
+    meta.fp_exp2 = lat.exp2;
 
     // ---- start
     i128 cur;
